@@ -541,6 +541,17 @@ func VerifUpdateTwoSteps() {
 	rt.Cover(err1 == nil && accepted && id1 != id2, "two/both-accepted-different-logs")
 	rt.Cover(err1 == nil && accepted && id1 == id2, "two/both-accepted-same-log")
 	rt.Cover(err1 == nil && accepted && rt.Eq(next1, next2) && id1 != id2, "two/same-bytes-replayed-to-another-log")
+	rt.Cover(err1 != nil && accepted && id1 == id2, "two/accepted-after-a-refusal-on-the-same-log")
+	if rt.Prop("C08") || rt.Prop("C09") {
+		// the protocol rules hold for the second request relative to what is stored now, whatever
+		// the first request was and however it ended (nothing but the store carries over)
+		var prev2 []byte
+		had2 := false
+		if li >= 0 {
+			prev2, had2 = pre.raw[li], pre.has[li]
+		}
+		verifC09(c, li, had2, prev2, old2, next2, proof2, out, uerr, evs)
+	}
 	if !accepted {
 		if rt.Prop("C03") {
 			for i := range c.ids {
